@@ -159,7 +159,7 @@ def validate(traces, workdir, module="TraceStackFS", invariants=None, jvms=8, ch
             stats["partial"] = True     # so many violations that TLC did not finish printing them: use what it reported
         stats["states"] += r["distinct"]
         stats["generated"] += r["generated"]
-        for m in re.finditer(r'<<"VIOL", "(\w+)", "([^"]*)", (\d+)>>', out):
+        for m in re.finditer(r'<<\s*"VIOL",\s*"(\w+)",\s*"([^"]*)",\s*(\d+)\s*>>', out):
             viols.append((m.group(1), m.group(2), int(m.group(3))))
         if "Deadlock reached" in out:
             # every deadlock report is followed by the behaviour; its first state names tr, its last the line
@@ -173,6 +173,8 @@ def validate(traces, workdir, module="TraceStackFS", invariants=None, jvms=8, ch
             if not viols or re.search(r"TLC threw|Parsing or semantic|Unknown|was not|Error: Evaluating|attempted to", out):
                 raise C.Inconclusive("TLC failed on trace validation:\n" + out[-3000:])
     # dedupe (TLC may evaluate an invariant more than once for a state)
+    if not viols and any("is violated" in r["out"] for r in results):
+        raise C.Inconclusive("TLC reports an invariant violation that the result parser did not understand")
     first = {}
     for inv, tid, line in viols:   # a state predicate stays violated: keep the first line per (trace, invariant)
         if (inv, tid) not in first or line < first[(inv, tid)]:
